@@ -19,6 +19,7 @@ for s in $LIST; do
   [ "$s" = "C01-J" ] && checks="C01 C03"   # publisher head cache race: C03's publisher unit
   [ "$s" = "C07-I" ] && checks="C07 C06"
   [ "$s" = "C07-J" ] && checks="C07 C06"
+  [ "$s" = "C15-J" ] && checks="C15 C16"   # a Direct left waiting by Close: announce/receiver.go, C16's statement
   [ "$s" = "C14-J" ] && checks="C14 C08"   # idle cleaner vs a sync waiting for its head: C08's long-sync unit
   cd /repo; if [ -n "$(git status --porcelain)" ]; then echo "/repo dirty"; exit 2; fi
   if ! git apply /verif/seeded/$s/patch.diff 2>/dev/null; then
